@@ -48,6 +48,10 @@ func init() {
 		"inside live sessions an adversary sends, for every signed endpoint, a fresh correctly signed request with exactly one component altered (method, identity, nonce, one parameter leaf, one signature byte, other key, empty / garbage / truncated signature); every altered request must be refused and every unaltered one accepted by the verification step",
 		profile{prop: "C04", oracles: []string{"C04"}, connect: 3, update: 5, peer: 2, addNode: 2, withdraw: 1, forge: 14, stale: 0, advance: 3, deposit: 1,
 			minOps: 12, maxOps: 50, minBal: []int64{-999}})
+	regWorld("c05_replay_seq", 300, 20000,
+		"through the real RPC path: captured requests (current and deprecated signature format) replayed later, requests with nonces older than the 15-minute window, between legitimate operations and clock advances beyond the window; each is honoured at most once",
+		profile{prop: "C05", oracles: []string{"C05"}, connect: 3, reconnect: 1, update: 8, peer: 2, addNode: 1, stale: 9, advance: 5,
+			minOps: 10, maxOps: 45, minBal: []int64{-999}})
 	regWorld("c06_refused_seq", 400, 25000,
 		"refused requests of every kind (bad signature, wrong key, malformed signature, stale or replayed nonce) to every signed endpoint between legitimate operations; the digest of the whole pool state (nodes, peers, links, balances, connected hosts, instructions hosts received, settlements) must not change and the owner's next request with a smaller fresh nonce must be accepted",
 		profile{prop: "C06", oracles: []string{"C06"}, connect: 3, update: 5, peer: 2, addNode: 2, withdraw: 1, forge: 10, stale: 4, advance: 3, deposit: 1,
@@ -72,6 +76,76 @@ func init() {
 		"hosts registering (connect and legacy host) with node-URI overrides {absent, other id, empty user, user:password, missing / unspecified host, IPv6 literal with and without port, DNS names, paths, queries, non-enode schemes} from connections with IPv4, IPv6, DNS, empty and unspecified source addresses; what is stored and handed to a client is parsed with the agent-side parser and net.SplitHostPort",
 		profile{prop: "C19", oracles: []string{"C19"}, connect: 12, reconnect: 4, update: 2, peer: 4, advance: 1, legacy: 3,
 			minOps: 6, maxOps: 30, minBal: []int64{-999}, uriOverrides: true})
+}
+
+func init() {
+	Register(&Scenario{Name: "c02_stall", Property: "C02", MaxSteps: 20000, Quick: 300, Thorough: 20000,
+		Doc:  "one light client with a constant peer set sends k keep-alives while simulated time also passes inside the handler (between the store calls of one update: handler stalls): the total credited to a peer over the run must not exceed floor(span x price / interval) for the span between the first check-in and the last stamped check-in - no stretch of time is charged twice",
+		Real: worldReal, Stub: worldStub, Run: runC02Stall})
+}
+
+func runC02Stall(s *kernel.Sim) {
+	cfg := WorldCfg{Driver: []string{"memory", "badger"}[s.Choose("driver", 2)], Hosts: 1, Clients: 1, Wallets: 0}
+	cfg.Interval = []time.Duration{time.Second, time.Minute}[s.Choose("interval", 2)]
+	cfg.Price = big.NewInt([]int64{1000, 1000000007, 60}[s.Choose("price", 3)])
+	cfg.StoreYields = 3
+	w := NewWorld(s, cfg)
+	s.IdleSteps = []time.Duration{time.Millisecond, 50 * time.Millisecond}
+	// time passes while handlers are parked between their store calls
+	s.TimeWeight = 2
+	s.TimeSteps = []time.Duration{time.Millisecond, 20 * time.Millisecond, 300 * time.Millisecond, time.Second}
+	d := NewDirector(w) // no per-operation oracles: this scenario judges the whole span
+	host, client := w.Actors[0], w.Actors[1]
+	k := 2 + s.Choose("k", 8)
+	var first, last time.Time
+	var stalls time.Duration
+	done := false
+	s.Go("director", func() {
+		defer func() { done = true }()
+		d.Connect(host, "", "", false)
+		d.Connect(client, "", "", false)
+		d.Update(client, []string{host.ID}, 0) // establishes the tracked peer
+		n, _ := w.Inner.GetNode(storeID(client))
+		first = n.LastSeen
+		_, c0, _ := w.NodeCredit(host.ID)
+		for i := 0; i < k && !s.Violated(); i++ {
+			d.Advance([]time.Duration{time.Second, 7 * time.Second, 61 * time.Second, 500 * time.Millisecond}[d.choose("gap", 4)])
+			// the host keeps checking in so that it never expires
+			d.Update(host, nil, uint64(i))
+			w.mu.Lock()
+			nRep := len(client.Conn.replies)
+			w.mu.Unlock()
+			if _, err := d.Update(client, []string{host.ID}, uint64(i)); err != nil {
+				s.Violate("billing", "keep-alive of a healthy client fails", "update %d: %v", i, err)
+				return
+			}
+			n, _ := w.Inner.GetNode(storeID(client))
+			last = n.LastSeen
+			w.mu.Lock()
+			if len(client.Conn.replies) > nRep {
+				stalls += client.Conn.replies[nRep].At.Sub(n.LastSeen) // upper bound of stamp -> charge
+			}
+			w.mu.Unlock()
+		}
+		_, c1, _ := w.NodeCredit(host.ID)
+		got := new(big.Int).Sub(c1, c0)
+		span := last.Sub(first)
+		max := creditFor(span, cfg.Price, cfg.Interval)
+		if got.Cmp(max) > 0 {
+			key := "time between the check-in stamp and the charge is billed again by the next keep-alive (handler stall)"
+			if got.Cmp(creditFor(span+stalls+time.Duration(k)*handlerSlack, cfg.Price, cfg.Interval)) > 0 {
+				key = "more time is billed than passed, beyond the handler stalls"
+			}
+			s.Violate("no_double_charge", key, "%d keep-alives over a span of %s (stalls inside handlers at most %s): peer credited %s, span x price / interval = %s (price %s per %s)", k, span, stalls, got, max, cfg.Price, cfg.Interval)
+		}
+		if min := new(big.Int).Sub(max, big.NewInt(int64(k+1))); got.Cmp(min) < 0 {
+			s.Violate("no_double_charge", "less is billed than the span minus one unit per keep-alive", "%d keep-alives over %s: peer credited %s, expected at least %s", k, span, got, min)
+		}
+	})
+	res := s.Drive(kernel.DriveOpts{IdleCap: time.Hour, Until: func() bool { return done }})
+	if res != kernel.Done && res != kernel.Stopped {
+		s.Violate("liveness", "an operation never returns", "ended %s", res)
+	}
 }
 
 var srcAddrs = []string{"10.1.2.3:5555", "[2001:db8::7]:4444", "host.example.org:3333", "[::1]:2222", "203.0.113.9:1", "[fe80::1]:9", ":7777", "[::]:8888", "0.0.0.0:9999"}
@@ -226,11 +300,18 @@ func runWorldSeq(s *kernel.Sim, p profile) {
 					}
 				}
 				d.lastNonce[a.ID] = time.Now().UnixNano()
-				d.Update(a, rep, uint64(i))
+				if d.choose("oldformat", 5) == 0 {
+					d.UpdateOld(a, rep, uint64(i))
+				} else {
+					d.Update(a, rep, uint64(i))
+				}
 			case 3: // peer request
 				a := anyActor()
 				asked := d.choose("asked", len(w.Actors)+5) - 2
-				kind := []string{"", "", "geth", "parity"}[d.choose("pkind", 4)]
+				if d.choose("hugecount", 12) == 0 {
+					asked = []int{1 << 31, 1 << 40, 1<<63 - 1, -1 << 31}[d.choose("huge", 4)]
+				}
+				kind := []string{"", "", "geth", "parity", "unknown", "besu", "Geth", "pantheon"}[d.choose("pkind", 8)]
 				if _, err := w.Ref.GetNode(storeID(a)); err != nil {
 					d.Connect(a, "", "", false)
 				}
